@@ -827,7 +827,7 @@ func (c *compiler) evalCallExpression(node *ast.CallExpression) (interface{}, er
 			if v != nil {
 				ar = reflect.ValueOf(v)
 			} else {
-				ar = reflect.New(expectedT)
+				ar = reflect.New(expectedT).Elem()
 			}
 
 			actualT := ar.Type()
